@@ -2,7 +2,7 @@
 
 Model: Schedule.generate as a pure function (lean/FinVerif/Core/ScheduleAlgo.lean) instantiated with the
 model of Date/Calendar; Spec: FinVerif/Spec/Schedule.lean (ideal roll schedule, independent of the
-source).  Theorems: FinVerif/Props/C16.lean.  Correspondence: implementation vs model (exact dates)
+source).  Theorems: FinVerif/Props/C16.lean, C16b … C16i (see notes/C16.md).  Correspondence: implementation vs model (exact dates)
 and implementation vs spec acceptance; then products built on schedules inherit exactly these dates."""
 import json
 import os
@@ -14,7 +14,8 @@ import dates as D   # noqa: E402
 from parallel import driver_parallel  # noqa: E402
 
 GEN = ['DateK', 'Calendar', 'DateLogic']
-PROPS = ['FinVerif.Props.C16', 'FinVerif.Props.C16b', 'FinVerif.Props.C16c']
+PROPS = ['FinVerif.Props.C16', 'FinVerif.Props.C16b', 'FinVerif.Props.C16c', 'FinVerif.Props.C16d', 'FinVerif.Props.C16e',
+         'FinVerif.Props.C16f', 'FinVerif.Props.C16g', 'FinVerif.Props.C16h', 'FinVerif.Props.C16i']
 DRIVERS = ['FinVerif.Driver.C16']
 SPEC_DRIVERS = ['FinVerif.Driver.C16Spec']
 
@@ -22,7 +23,8 @@ RULE = ('effective/termination pairs 1 day..50 years apart drawn from dates bias
         'holidays, x every FrequencyTypes with a period x 15 CalendarTypes x 5 BusDayAdjustTypes x both DateGenRuleTypes '
         'x both flags; each schedule compared date-by-date with the model and judged against the ideal roll schedule of '
         'the spec; a second generate() is compared too; then SwapFixedLeg/SwapFloatLeg/Bond/CDS/IborCapFloor date lists are '
-        'compared with the Schedule they are built on. Non-trivial = schedule with at least one interior date.')
+        'compared with the Schedule they are built on; CDS accrual end dates and SwapFixedLeg/SwapFloatLeg date lists with payment_lag 0..3 '
+        'are compared with the model (ops CDSE, LEG) and with own day arithmetic. Non-trivial = schedule with at least one interior date.')
 
 CORPUS = [
     'SCH 4 1 2020 4 1 2021 3 2 2 0 1 0 0',      # FORWARD, Saturday effective date, FOLLOWING
@@ -270,7 +272,102 @@ def inheritance(ctx, rng, drivers_ok=True):
         except FinError:
             pass
     ctx.count('inheritance (swap legs, bond)', cnt)
+    legs_with_lag(ctx, drivers_ok)
     inheritance_more(ctx, rng, drivers_ok)
+
+
+def lag_oracle(leg, cal, lag):
+    """direct oracle: a lagged payment date is a business day exactly `lag` business days after the accrual end date
+    (own day walk over Calendar.is_business_day); with lag 0 it is the accrual end date. Returns None or the failing period."""
+    from financepy.utils.date import Date
+    from financepy.utils.calendar import Calendar, CalendarTypes
+    if lag == 0:
+        if fmtl(leg.payment_dts) != fmtl(leg.end_accrued_dts):
+            return {'accrual_end': fmtl(leg.end_accrued_dts), 'payment': fmtl(leg.payment_dts)}
+        return None
+    if lag < 0 or cal == CalendarTypes.NONE:
+        return None
+    c = Calendar(cal)
+    for en, pay in zip(leg.end_accrued_dts, leg.payment_dts):
+        nb, cur, steps = 0, (en.d, en.m, en.y), 0
+        while cur != (pay.d, pay.m, pay.y) and steps < 60:
+            cur = own_add_days(cur, 1)
+            steps += 1
+            nb += bool(c.is_business_day(Date(*cur)))
+        if not (pay > en and c.is_business_day(pay) and nb == lag):
+            return {'accrual_end': fmtl([en]), 'payment': fmtl([pay]), 'business_days_between': nb}
+    return None
+
+
+def legs_with_lag(ctx, drivers_ok=True):
+    """SwapFixedLeg / SwapFloatLeg date lists (accrual start | accrual end | payment) with payment_lag in 0..3 against the
+    model `Model.legDates` (op LEG: Schedule + the period loop of generate_payments + Calendar.add_business_days), and a
+    direct oracle on the implementation: a lagged payment date is a business day, exactly `lag` business days after the
+    accrual end date (business days counted with an own day walk over Calendar.is_business_day)."""
+    from financepy.utils.date import Date
+    from financepy.utils.calendar import Calendar, CalendarTypes, BusDayAdjustTypes, DateGenRuleTypes
+    from financepy.utils.frequency import FrequencyTypes, annual_frequency
+    from financepy.utils.day_count import DayCountTypes
+    from financepy.utils.global_types import SwapTypes
+    from financepy.products.rates.swap_fixed_leg import SwapFixedLeg
+    from financepy.products.rates.swap_float_leg import SwapFloatLeg
+    from financepy.utils.error import FinError
+    rng = ctx.rng('legs')
+    n = 150 if ctx.quick() else 3000
+    freqs = [FrequencyTypes.ANNUAL, FrequencyTypes.SEMI_ANNUAL, FrequencyTypes.QUARTERLY, FrequencyTypes.MONTHLY]
+    ops, impls, cases = [], [], []
+    cnt = nontriv = 0
+    for t in D.interesting_dates(rng, n, 1990, 2060):
+        months = rng.choice([1, 6, 12, 18, 24, 60, 37])
+        t2 = own_add_months(t, months)
+        if rng.random() < 0.3:
+            t2 = own_add_days(t2, rng.randint(1, 40))
+        f = rng.choice(freqs)
+        cal = rng.choice(list(CalendarTypes))
+        cv = rng.choice(list(BusDayAdjustTypes))
+        dg = rng.choice(list(DateGenRuleTypes))
+        eo = rng.random() < 0.3
+        lag = rng.choice([0, 1, 2, 3])
+        e, tt = Date(*t), Date(*t2)
+        nm = int(12 / annual_frequency(f))
+        op = (f'LEG {t[0]} {t[1]} {t[2]} {t2[0]} {t2[1]} {t2[2]} {nm} {cal.value} {cv.value} '
+              f'{int(dg == DateGenRuleTypes.BACKWARD)} {int(eo)} {lag}')
+        case = {'op': op, 'effective': t, 'termination': t2, 'freq': f.name, 'cal': cal.name, 'conv': cv.name,
+                'rule': dg.name, 'end_of_month': eo, 'payment_lag': lag}
+        got = []
+        for cls in (SwapFixedLeg, SwapFloatLeg):
+            try:
+                leg = cls(e, tt, SwapTypes.PAY, 0.03 if cls is SwapFixedLeg else 0.0, f, DayCountTypes.ACT_360, 1e6, 0.0,
+                          lag, cal, cv, dg, eo)
+                got.append(fmtl(leg.start_accrued_dts) + ' | ' + fmtl(leg.end_accrued_dts) + ' | ' + fmtl(leg.payment_dts))
+                bad = lag_oracle(leg, cal, lag)
+                if bad:
+                    ctx.violation(f'{cls.__name__} payment date is not `payment_lag` business days after the accrual end date',
+                                  dict(case, **bad), clause='inheritance-lag')
+                if len(leg.payment_dts) > 1:
+                    nontriv += 1
+            except FinError:
+                got.append('E:FinError')
+            except Exception as ex:  # noqa: BLE001
+                got.append('E:' + type(ex).__name__)
+            cnt += 1
+        ops.append(op)
+        impls.append(got)
+        cases.append(case)
+    nb_m = 0
+    if drivers_ok:
+        try:
+            model = C.run_driver('C16', ops)
+            for op, got, m in zip(ops, impls, model):
+                for name, g in zip(('SwapFixedLeg', 'SwapFloatLeg'), got):
+                    if g != m:
+                        nb_m += 1
+                        if nb_m <= 3:
+                            ctx.broke(f'correspondence {name} dates: model≠implementation on `{op}` (model {m}, impl {g})')
+        except C.DriverError as ex:
+            ctx.broke('model driver failed on LEG ops: ' + str(ex)[:300])
+    ctx.count('swap legs with payment lag (model LEG)', cnt, nontriv, sample={'op': ops[len(ops) // 2], 'impl': impls[len(ops) // 2]})
+    ctx.cov['components']['swap legs with payment lag (model LEG)'].update({'disagree_model': nb_m})
 
 
 def inheritance_more(ctx, rng, drivers_ok=True):
@@ -293,7 +390,7 @@ def inheritance_more(ctx, rng, drivers_ok=True):
     n = 400 if ctx.quick() else 6000
     cnt = 0
     freqs = [FrequencyTypes.ANNUAL, FrequencyTypes.SEMI_ANNUAL, FrequencyTypes.QUARTERLY, FrequencyTypes.MONTHLY]
-    cds_ops, cds_impl, cds_case = [], [], []
+    cds_ops, cds_impl, cds_case, cdse_impl = [], [], [], []
     Q, S, M = FrequencyTypes.QUARTERLY, FrequencyTypes.SEMI_ANNUAL, FrequencyTypes.MONTHLY
     BW, FW = DateGenRuleTypes.BACKWARD, DateGenRuleTypes.FORWARD
     cases = [
@@ -324,13 +421,20 @@ def inheritance_more(ctx, rng, drivers_ok=True):
             ends = [d.add_days(-1) for d in cds.accrual_start_dts[1:]] + [tt]
             if fmtl(cds.accrual_end_dts) != fmtl(ends):
                 ctx.violation('CDS accrual end dates are not (next accrual start − 1 day) … maturity',
-                              dict(case, accrual_end=fmtl(cds.accrual_end_dts)), clause='inheritance-cds')
+                              dict(case, op=op, accrual_end=fmtl(cds.accrual_end_dts)), clause='inheritance-cds')
+            got_e = fmtl(cds.accrual_end_dts)
+            # the same with own day arithmetic: accrual end + 1 day = next accrual start
+            nxt = [own_add_days((d.d, d.m, d.y), 1) for d in cds.accrual_end_dts[:-1]]
+            if nxt != [(d.d, d.m, d.y) for d in cds.accrual_start_dts[1:]]:
+                ctx.violation('CDS accrual periods do not tile: accrual end + 1 day is not the next accrual start',
+                              dict(case, op=op, accrual_end=got_e, accrual_start=fmtl(cds.accrual_start_dts)), clause='inheritance-cds')
         except FinError:
-            got = 'E:FinError'
+            got = got_e = 'E:FinError'
         except Exception as ex:  # noqa: BLE001
-            got = 'E:' + type(ex).__name__
+            got = got_e = 'E:' + type(ex).__name__
         cds_ops.append(op)
         cds_impl.append(got)
+        cdse_impl.append(got_e)
         cds_case.append(case)
         cnt += 1
         # ---- cap/floor and FRN: plain Schedule users
@@ -368,7 +472,14 @@ def inheritance_more(ctx, rng, drivers_ok=True):
         ctx.broke('spec driver failed on CDS ops: ' + str(ex)[:300])
     if drivers_ok:
         try:
-            model = C.run_driver('C16', cds_ops)
+            both = C.run_driver('C16', cds_ops + ['CDSE' + o[3:] for o in cds_ops])
+            model, model_e = both[:len(cds_ops)], both[len(cds_ops):]
+            nb_e = 0
+            for o, g, m in zip(cds_ops, cdse_impl, model_e):
+                if g != m:
+                    nb_e += 1
+                    if nb_e <= 3:
+                        ctx.broke(f'correspondence CDS accrual end dates: model≠implementation on `CDSE{o[3:]}` (model {m}, impl {g})')
         except C.DriverError as ex:
             ctx.broke('model driver failed on CDS ops: ' + str(ex)[:300])
     nb_m = 0
@@ -410,6 +521,8 @@ def replay(ctx, path):
     C.import_financepy()
     if op.startswith('CDS'):
         return replay_cds(ctx, path, op)
+    if op.startswith('LEG'):
+        return replay_leg(ctx, path, op)
     from financepy.utils.date import Date
     from financepy.utils.calendar import CalendarTypes, BusDayAdjustTypes, DateGenRuleTypes
     from financepy.utils.frequency import FrequencyTypes, annual_frequency
@@ -444,14 +557,54 @@ def replay_cds(ctx, path, op):
         c = CDS(Date(p[0], p[1], p[2]), Date(p[3], p[4], p[5]), 0.01, 1e6, True, fr, DayCountTypes.ACT_360,
                 CalendarTypes(p[7]), BusDayAdjustTypes(p[8]), DateGenRuleTypes.BACKWARD if p[9] else DateGenRuleTypes.FORWARD)
         r = fmtl(c.payment_dts)
+        nxt = [own_add_days((d.d, d.m, d.y), 1) for d in c.accrual_end_dts[:-1]]
+        tiles = (nxt == [(d.d, d.m, d.y) for d in c.accrual_start_dts[1:]]
+                 and (c.accrual_end_dts[-1].d, c.accrual_end_dts[-1].m, c.accrual_end_dts[-1].y) == (p[3], p[4], p[5]))
     except Exception as e:  # noqa: BLE001
         r = 'E:' + type(e).__name__
+        tiles = True
     sp = C.run_driver('C16Spec', [op])[0]
     ideal = sp if sp.startswith('E:') else sp[2:].strip()
     strict = None if sp.startswith('E:') else sp[0] == '1'
-    ok = r == ideal and strict is not False
-    print(f'replay {op}: implementation={r} ideal={ideal} strictly_increasing={strict} acceptable={ok}')
+    ok = r == ideal and strict is not False and tiles
+    print(f'replay {op}: implementation={r} ideal={ideal} strictly_increasing={strict} accrual_periods_tile={tiles} acceptable={ok}')
     if not ok:
         print(f'VIOLATION property=C16 replay={path}')
         return 1
     return 0
+
+
+def replay_leg(ctx, path, op):
+    from financepy.utils.date import Date
+    from financepy.utils.calendar import CalendarTypes, BusDayAdjustTypes, DateGenRuleTypes
+    from financepy.utils.frequency import FrequencyTypes, annual_frequency
+    from financepy.utils.day_count import DayCountTypes
+    from financepy.utils.global_types import SwapTypes
+    from financepy.utils.schedule import Schedule
+    from financepy.products.rates.swap_fixed_leg import SwapFixedLeg
+    from financepy.products.rates.swap_float_leg import SwapFloatLeg
+    p = list(map(int, op.split()[1:]))
+    fr = [f for f in FrequencyTypes if f.value > 0 and f != FrequencyTypes.CONTINUOUS and int(12 / annual_frequency(f)) == p[6]][0]
+    e, tt = Date(p[0], p[1], p[2]), Date(p[3], p[4], p[5])
+    cal, cv = CalendarTypes(p[7]), BusDayAdjustTypes(p[8])
+    dg = DateGenRuleTypes.BACKWARD if p[9] else DateGenRuleTypes.FORWARD
+    eo, lag = bool(p[10]), p[11]
+    rc = 0
+    for cls in (SwapFixedLeg, SwapFloatLeg):
+        try:
+            leg = cls(e, tt, SwapTypes.PAY, 0.03 if cls is SwapFixedLeg else 0.0, fr, DayCountTypes.ACT_360, 1e6, 0.0,
+                      lag, cal, cv, dg, eo)
+            sched = fmtl(Schedule(e, tt, fr, cal, cv, dg, end_of_month=eo).adjusted_dts)
+            inherits = fmtl([leg.start_accrued_dts[0]] + list(leg.end_accrued_dts)) == sched
+            bad = lag_oracle(leg, cal, lag)
+            ok = inherits and not bad
+            print(f'replay {op}: {cls.__name__} payment={fmtl(leg.payment_dts)} accrual dates = schedule: {inherits}; '
+                  f'lag oracle: {bad or "ok"}; acceptable={ok}')
+        except Exception as ex:  # noqa: BLE001
+            print(f'replay {op}: {cls.__name__} raised {type(ex).__name__}')
+            ok = True
+        if not ok:
+            rc = 1
+    if rc:
+        print(f'VIOLATION property=C16 replay={path}')
+    return rc
